@@ -54,10 +54,11 @@ func literalStores(a *ssa.Alloc) map[string]ssa.Value {
 }
 
 type trySubmission struct {
-	call   *ssa.Call
-	fn     *ssa.Function
-	kind   string // body | success | fail | finally
-	fields map[string]ssa.Value
+	selfRecords bool // the helper that submits records a failed submission in the surrounding scope itself
+	call        *ssa.Call
+	fn          *ssa.Function
+	kind        string // body | success | fail | finally
+	fields      map[string]ssa.Value
 }
 
 func rulesC16(c *Ctx) {
@@ -168,15 +169,20 @@ func rulesC16(c *Ctx) {
 			subs = append(subs, s)
 		}
 	}
+	helperFns := map[*ssa.Function]bool{}
 	// submissions made through a private helper that builds the Pip and calls Runner.Run itself
 	// (starter.start(scope, name, body, ...)): the helper call is the submission
 	for _, g := range withClosures(try) {
 		for _, ci := range Calls(g) {
 			h := ci.Static
 			call, isCall := ci.Instr.(*ssa.Call)
+			if h == nil && isCall {
+				h = closureCallee(call) // a function literal kept in a local variable
+			}
 			if h == nil || !isCall || h.Pkg != try.Pkg || h.Blocks == nil || h == try {
 				continue
 			}
+			selfRecords := false
 			var fields map[string]ssa.Value
 			for _, hc := range Calls(h) {
 				if hc.Method == nil || hc.Method.Name() != "Run" || !strings.HasSuffix(qualObj(hc.Method), "(Runner).Run") {
@@ -194,6 +200,15 @@ func rulesC16(c *Ctx) {
 						okRet = true
 					}
 				}
+				// ... or records it in the surrounding scope itself, on the failing edge
+				if !okRet && hc.Value() != nil {
+					hf := factsFor(h)
+					for _, ac := range Calls(h) {
+						if ac.Method != nil && ac.Method.Name() == "AppendError" && hf.KnownNil(ac.Block, hc.Value(), false) && isSurroundingScope(ac.Recv()) {
+							okRet, selfRecords = true, true
+						}
+					}
+				}
 				if !okRet {
 					fields = nil
 				}
@@ -204,7 +219,8 @@ func rulesC16(c *Ctx) {
 			for k, v := range fields {
 				fields[k] = substParams(v, h, ci.Common.Args, 0)
 			}
-			s := &trySubmission{call: call, fn: g, fields: fields}
+			helperFns[h] = true
+			s := &trySubmission{call: call, fn: g, fields: fields, selfRecords: selfRecords}
 			if in := s.fields["Context.In"]; in != nil {
 				for _, o := range Origins(in, FlowOpts{Transparent: func(ci *CallInfo) []ssa.Value {
 					if ci.Static != nil {
@@ -229,6 +245,9 @@ func rulesC16(c *Ctx) {
 	}
 	byKind := map[string]*trySubmission{}
 	for _, s := range subs {
+		if s.kind == "" && helperFns[s.fn] {
+			continue // the Run call inside a submitting helper: judged at the helper's call sites
+		}
 		if s.kind == "" {
 			c.Bad("anchor", "submission at "+c.pos(s.call.Pos()), s.call.Pos(), "cannot tell which argument feeds this submission")
 			continue
@@ -342,7 +361,7 @@ func rulesC16(c *Ctx) {
 		hs := s.fields["Context.Scope"]
 		okS := hs != nil && isSurroundingScope(hs)
 		c.Check(okS, "R5", k+" handler runs in the surrounding scope", s.call.Pos(), "Scope = the command's own scope", "the handler is not submitted in the surrounding scope — a failing handler does not fail it")
-		app := false
+		app := s.selfRecords
 		for _, ci := range Calls(s.fn) {
 			if ci.Method != nil && ci.Method.Name() == "AppendError" && facts.KnownNil(ci.Block, s.call, false) && isSurroundingScope(ci.Recv()) {
 				app = true
@@ -392,6 +411,7 @@ func rulesC16(c *Ctx) {
 		}
 	}
 	ruleScopeWaitWaits(c, "R6")
+	ruleRunGoRecordsFailure(c, "R7")
 	c.Check(okA, "R4", "surrounding scope held open", add.Pos(), "AddTasks(1) succeeded before the body; DoneTask on every path", whyA+" — the surrounding scope never finishes (or closes too early)")
 }
 
@@ -603,4 +623,85 @@ func helperBuildsOwnContextScope(h *ssa.Function) bool {
 		}
 	}
 	return true
+}
+
+// closureCallee: the call goes through a local variable that holds a function literal
+// (directly, or captured by the calling literal): the literal, if the variable is
+// assigned exactly once.
+func closureCallee(call *ssa.Call) *ssa.Function {
+	if call.Call.IsInvoke() || call.Call.StaticCallee() != nil {
+		return nil
+	}
+	v := call.Call.Value
+	for d := 0; d < 4; d++ {
+		switch x := v.(type) {
+		case *ssa.MakeClosure:
+			fn, _ := x.Fn.(*ssa.Function)
+			return fn
+		case *ssa.Function:
+			return x
+		case *ssa.UnOp:
+			if x.Op != token.MUL {
+				return nil
+			}
+			var a *ssa.Alloc
+			switch y := x.X.(type) {
+			case *ssa.Alloc:
+				a = y
+			case *ssa.FreeVar:
+				a, _ = bindingOf(y).(*ssa.Alloc)
+			}
+			if a == nil {
+				return nil
+			}
+			st := uniqueStore(a)
+			if st == nil {
+				return nil
+			}
+			v = st.Val
+		case *ssa.FreeVar:
+			b := bindingOf(x)
+			if b == nil {
+				return nil
+			}
+			v = b
+		default:
+			return nil
+		}
+	}
+	return nil
+}
+
+// ruleRunGoRecordsFailure (C16.R7): a failing task body is recorded in the task's scope.
+// pip:try reads the body's outcome from the body scope: a nested task whose sandbox returns an
+// error must leave that error in a scope, whatever the sandbox is.
+func ruleRunGoRecordsFailure(c *Ctx, rule string) {
+	runGo := c.P.Func(runnerPkg, "Runner", "runGo")
+	if runGo == nil {
+		c.Bad(rule, "runner.(*Runner).runGo", 0, "anchor not found")
+		return
+	}
+	n7 := 0
+	// the body may be started from a private stage of runGo
+	for _, g := range privateGroup(c.P, runGo, true) {
+		rf := factsFor(g)
+		for _, ci := range Calls(g) {
+			call, isCall := ci.Instr.(*ssa.Call)
+			if !isCall || ci.Method == nil || ci.Method.Name() != "Run" || !strings.HasSuffix(qualObj(ci.Method), "(Sandbox).Run") {
+				continue
+			}
+			n7++
+			ev := call.Value()
+			isAppend := ipEvent(func(in ssa.Instruction) bool {
+				x := callInfo(in, nil, 0)
+				return x != nil && x.Kind == "call" && x.Method != nil && x.Method.Name() == "AppendError"
+			}, 1)
+			bad := MustPassF(g, call, isAppend, func(_ int, pred, succ *ssa.BasicBlock) bool {
+				return !knownNilIn(factsOnEdge(rf, pred, succ), ev, true)
+			})
+			c.Check(len(bad) == 0, rule, "runGo records the failure of Sandbox.Run", call.Pos(), "AppendError on the task scope on every path of the failing edge",
+				"a return is reachable on the failing edge of Sandbox.Run without the error having been appended to a scope — only the 'self' sandbox records its own errors: a nested task in another sandbox fails silently and the try body counts as successful")
+		}
+	}
+	c.Floor(rule, n7, 1)
 }
